@@ -100,6 +100,7 @@ pub trait AttrVal { spec fn text(&self) -> Seq<char>; }
 impl AttrVal for &Addr { open spec fn text(&self) -> Seq<char> { self.s@ } }
 impl AttrVal for &str { open spec fn text(&self) -> Seq<char> { self@ } }
 impl AttrVal for String { open spec fn text(&self) -> Seq<char> { self@ } }
+impl AttrVal for &String { open spec fn text(&self) -> Seq<char> { self@ } }
 impl Event {
     #[verifier::external_body]
     pub fn new(ty: &str) -> (r: Event) ensures r.ty@ == ty@, r.attributes@.len() == 0 { Event { ty: ty.to_string(), attributes: Vec::new() } }
@@ -296,3 +297,19 @@ impl Eq for Addr {}
 pub uninterp spec fn spec_u64_text(n: u64) -> Seq<char>;
 #[verifier::external_body]
 pub fn u64_to_string(n: u64) -> (r: String) ensures r@ == spec_u64_text(n) { n.to_string() }
+
+// ---- error constructors (payloads opaque)
+pub enum OverflowOperation { Add, Sub, Mul, Pow, Shr, Shl }
+pub struct OverflowError { pub operation: OverflowOperation }
+impl OverflowError { pub fn new(operation: OverflowOperation) -> (r: OverflowError) { OverflowError { operation } } }
+impl StdError {
+    pub fn overflow(e: OverflowError) -> (r: StdError) { StdError }
+    #[verifier::external_body]
+    pub fn generic_err(msg: &str) -> (r: StdError) { StdError }
+    #[verifier::external_body]
+    pub fn not_found(kind: &str) -> (r: StdError) { StdError }
+}
+impl vstd::std_specs::convert::FromSpecImpl<StdError> for AnyError {
+    open spec fn obeys_from_spec() -> bool { true }
+    open spec fn from_spec(e: StdError) -> AnyError { AnyError }
+}
